@@ -21,4 +21,4 @@ require (
 	gopkg.in/yaml.v3 v3.0.1 // indirect
 )
 
-replace github.com/invopop/gobl => /tmp/wt-c15-base
+replace github.com/invopop/gobl => /repo
